@@ -9,6 +9,7 @@ acc += p, p += acc must raise, and the write-set monitor must see both
 operands unchanged after the failed attempt (failure atomicity).
 """
 import copy
+import json
 
 from .. import observe, spec as specmod
 from ..kernel import call, exc_site
@@ -142,12 +143,43 @@ def _node_mutants(sp, dy):
     return out
 
 
-def structural_mutants(spec, dy=True):
+TINY = 2.0 ** -40
+
+
+def _tiny_mutants(sp):
+    """one structural number changed by less than any tolerance a user would configure for == (1e-9): still another
+    structure, the bins mean other intervals"""
+    out = []
+    p = sp["p"]
+
+    def nudge(v):
+        return v * (1.0 + TINY) if abs(v) >= 1.0 else v + TINY
+
+    if p == "Bin":
+        for k in ("low", "high"):
+            t = copy.deepcopy(sp)
+            t[k] = nudge(sp[k])
+            out.append(("tiny-bin-" + k, t))
+    elif p == "SparselyBin":
+        for k in ("binWidth", "origin"):
+            t = copy.deepcopy(sp)
+            t[k] = nudge(sp[k])
+            out.append(("tiny-sparse-" + k, t))
+    elif p in ("CentrallyBin", "IrregularlyBin", "Stack"):
+        key = {"CentrallyBin": "centers", "IrregularlyBin": "edges", "Stack": "thresholds"}[p]
+        vals = sorted(sp[key])
+        t = copy.deepcopy(sp)
+        t[key] = vals[:-1] + [nudge(vals[-1])]
+        out.append(("tiny-%s-shift" % key, t))
+    return out
+
+
+def structural_mutants(spec, dy=True, tiny=False):
     """[(description, mutated spec)] -- exactly one structural change somewhere in the tree"""
     out = []
 
     def rec(sp, path, setter):
-        for kind, new in _node_mutants(sp, dy):
+        for kind, new in _node_mutants(sp, dy) + (_tiny_mutants(sp) if tiny else []):
             out.append(("%s@%s" % (kind, "/".join(path) or "root"), setter(new)))
         for name, c in specmod.child_slots(sp):
             def mk(name=name, sp=sp, setter=setter):
@@ -251,7 +283,7 @@ def _valid_spec(sp):
 class C10(Scenario):
     prop = "C10"
     level = "fault_enumeration"
-    profiles = ["misdelivery"]
+    profiles = ["misdelivery", "misdelivery", "misdelivery", "built"]
     budgets = {"quick": 5000, "thorough": 100000}
     wall_caps = {"quick": 110, "thorough": 1500}
     block = 16
@@ -265,7 +297,8 @@ class C10(Scenario):
     assumptions = ["any exception type counts as a rejection", "mutants whose construction fails (Label/Index type rule) are skipped and counted",
                    "operands are rebuilt from their recorded fills before every attempt, so one failed += cannot contaminate the next"]
     expected_faults = ["misdelivery"]
-    expected_probes = ["nested_mismatch", "mismatch_under_empty_sparse", "acc_filled", "operand_reloaded"]
+    expected_probes = ["nested_mismatch", "mismatch_under_empty_sparse", "acc_filled", "operand_reloaded", "tolerance_configured",
+                       "tiny_mismatch", "built_layer_count"]
 
     def generate(self, rng, tier, profile):
         big = tier == "thorough"
@@ -281,10 +314,23 @@ class C10(Scenario):
         acc_fill2 = [[s.randrange(n), s.pick(specmod.POS_WEIGHTS)] for _ in range(s.randint(0, 4))] if state == "merged" else None
         p_fill = [] if s.chance(0.25) else [[s.randrange(n), s.pick(specmod.POS_WEIGHTS)] for _ in range(s.randint(1, 6))]
         reload_acc, reload_p = s.chance(0.2), s.chance(0.2)
-        muts = [(dsc, m) for dsc, m in structural_mutants(sp) if _valid_spec(m)]
+        k = rng.fork("knobs")
+        tol = k.pick([0.0, 0.0, 1e-9, 1e-6])  # histogrammar.util.relativeTolerance / absoluteTolerance: a knob of ==, not of +
+        tolmode = k.pick(["both", "rel", "abs"])
+        if profile == "built":
+            steps = []
+            for _ in range(8):
+                na = k.randint(1, 3)
+                nb = k.pick([x for x in (1, 2, 3, 4) if x != na])
+                steps.append({"op": "built", "na": na, "nb": nb, "form": k.pick(FORMS), "wrap": k.pick(["none", "none", "branch", "label"]),
+                              "reload": k.pick(["none", "none", "acc", "p", "both"]),
+                              "layers": [[[s.randrange(n), s.pick(specmod.POS_WEIGHTS)] for _ in range(s.randint(0, 4))] for _ in range(4)]})
+            return {"spec": sp, "records": [specmod.enc_record(r) for r in recs], "acc_fill": acc_fill, "acc_fill2": None, "p_fill": p_fill,
+                    "steps": steps, "reload_acc": False, "reload_p": False, "tol": tol, "tolmode": tolmode}
+        muts = [(dsc, m) for dsc, m in structural_mutants(sp, tiny=True) if _valid_spec(m)]
         steps = [{"op": "misdeliver", "what": dsc, "mutant": m, "form": f} for dsc, m in muts for f in FORMS]
         return {"spec": sp, "records": [specmod.enc_record(r) for r in recs], "acc_fill": acc_fill, "acc_fill2": acc_fill2,
-                "p_fill": p_fill, "steps": steps, "reload_acc": reload_acc, "reload_p": reload_p}
+                "p_fill": p_fill, "steps": steps, "reload_acc": reload_acc, "reload_p": reload_p, "tol": tol, "tolmode": tolmode}
 
     def _make(self, w, sp, fills, fills2, si):
         def one(fl):
@@ -311,11 +357,73 @@ class C10(Scenario):
         return h
 
     def run(self, case, w, R):
+        import histogrammar.util as util
+
+        old = (util.relativeTolerance, util.absoluteTolerance)
+        tol = float(case.get("tol") or 0.0)
+        if tol > 0.0:
+            mode = case.get("tolmode", "both")
+            util.relativeTolerance = tol if mode in ("both", "rel") else 0.0
+            util.absoluteTolerance = tol if mode in ("both", "abs") else 0.0
+            w.bump("probe_tolerance_configured")
+        try:
+            return self._run(case, w, R)
+        finally:
+            util.relativeTolerance, util.absoluteTolerance = old
+
+    def _built(self, case, w, st, si):
+        """Stack.build of a different number of layers of the same tree is a different structure"""
+        import histogrammar as hg
+
+        sp = case["spec"]
+
+        def mk(n, reload):
+            layers = [self._make(w, sp, fl, None, si) for fl in st["layers"][:n]]
+            if any(x is None for x in layers):
+                return None
+            o = call(lambda: hg.Stack.build(*layers))
+            if not o.ok:
+                return None
+            h = o.value
+            if st.get("wrap") == "branch":
+                o = call(lambda: hg.Branch(h, hg.Count()))
+            elif st.get("wrap") == "label":
+                o = call(lambda: hg.UntypedLabel(stack=h, n=hg.Count()))
+            if not o.ok:
+                return None
+            h = o.value
+            if reload:
+                o = call(lambda: hg.Factory.fromJson(json.loads(json.dumps(h.toJson()))))
+                if not o.ok:
+                    return None
+                h = o.value
+            return h
+
+        acc = mk(st["na"], st.get("reload") in ("acc", "both"))
+        p = mk(st["nb"], st.get("reload") in ("p", "both"))
+        return acc, p
+
+    def _run(self, case, w, R):
         sp = case["spec"]
         R["shape"] = "%s|%d" % (specmod.shape_key(sp), len(case["steps"]))
         units = 0
         nontrivial = False
         for si, st in enumerate(case["steps"]):
+            if st.get("op") == "built":
+                if st["na"] == st["nb"]:
+                    continue
+                acc, p = self._built(case, w, st, si)
+                if acc is None or p is None:
+                    w.bump("probe_mutant_not_constructible")
+                    continue
+                units += 1
+                nontrivial = True
+                w.bump("fault_misdelivery")
+                w.bump("probe_built_layer_count")
+                da, dp = observe.observe(acc), observe.observe(p)
+                self._attempt(w, R, si, st["form"], acc, p, da, dp, "Stack", "built-layer-count", "built-layer-count@%s" % st.get("wrap"),
+                              "Stack", "Stack")
+                continue
             m = st["mutant"]
             if m == sp or not _valid_spec(m):
                 continue
@@ -356,7 +464,14 @@ class C10(Scenario):
                 w.bump("probe_acc_filled")
             if self._under_empty_sparse(sp, st["what"], da):
                 w.bump("probe_mismatch_under_empty_sparse")
+            if st["what"].startswith("tiny-"):
+                w.bump("probe_tiny_mismatch")
+            self._attempt(w, R, si, form, acc, p, da, dp, self._site(sp, st["what"]), st["what"].split("@")[0], st["what"], sp["p"], m["p"])
+        R["nontrivial"] = nontrivial
+        R["units"] = units
 
+    def _attempt(self, w, R, si, form, acc, p, da, dp, site, kind, what, root_a, root_p):
+        if True:
             def attempt():
                 if form == "add_ap":
                     return acc + p
@@ -372,25 +487,21 @@ class C10(Scenario):
 
             o = call(attempt)
             opname = "add" if form.startswith("add") else "iadd"
-            left = (sp if form.endswith("ap") else m)["p"]
-            kind = st["what"].split("@")[0]
             if o.ok:
-                self.soft(self.violation(self._site(sp, st["what"]), opname, "no-exception:%s" % kind,
-                                         "%s of structurally different trees (%s) returned a result instead of raising" % (form, st["what"]), si,
+                self.soft(self.violation(site, opname, "no-exception:%s" % kind,
+                                         "%s of structurally different trees (%s) returned a result instead of raising" % (form, what), si,
                                          {"acc": da, "p": dp}), R)
-                continue
+                return
             a2, p2 = observe.observe(acc), observe.observe(p)
-            for name, before, after, root in (("acc", da, a2, sp["p"]), ("p", dp, p2, m["p"])):
+            for name, before, after, root in (("acc", da, a2, root_a), ("p", dp, p2, root_p)):
                 if before != after:
                     d = observe.diff_shallow(before["type"], before["data"], after["data"]) or ([], root, "?")
                     self.soft(self.violation(d[1], opname, "operand-mutated:%s" % d[2],
                                              "%s raised (%s) but left operand %s changed at %s (%s.%s)" % (
                                                  form, type(o.exc).__name__, name, d[0], d[1], d[2]), si,
-                                             {"before": before, "after": after, "mutation": st["what"]}), R)
+                                             {"before": before, "after": after, "mutation": what}), R)
                     break
-            w.record_step({"op": "misdeliver", "what": st["what"], "form": form}, {0: observe.obs_hash(a2), 1: observe.obs_hash(p2)})
-        R["nontrivial"] = nontrivial
-        R["units"] = units
+            w.record_step({"op": "misdeliver", "what": what, "form": form}, {0: observe.obs_hash(a2), 1: observe.obs_hash(p2)})
 
     def _site(self, sp, what):
         """primitive that owns the mutated parameter (the node whose check should have fired)"""
